@@ -709,6 +709,36 @@ def rule_r3(prog, res) -> None:
             return None
 
         paths = symx.explore(prog, m, env={"require": True}, inline=symx.inline_private_helpers(prog, public={"is_compatible"}), call_value=forwarded_true)
+        # what the verdict is based on: on a path that has found the operands to DIFFER in a compared component (or to be
+        # of another type) the answer is an exception with require=True and False without; on a path that accepts, every
+        # compared component was found equal
+        oth_ = m.param_names()[1] if len(m.param_names()) > 1 else "other"
+
+        def verdict_of(t, pol):
+            """True: this decision says 'the operands agree here'; False: 'they differ'; None: not a comparison of the two"""
+            if isinstance(t, ast.Call) and isinstance(t.func, ast.Name) and t.func.id == "isinstance" and t.args and isinstance(t.args[0], ast.Name) and t.args[0].id == oth_:
+                return pol
+            if isinstance(t, ast.Compare) and len(t.ops) == 1 and isinstance(t.ops[0], (ast.Eq, ast.NotEq)):
+                names = {y.id for y in ast.walk(t) if isinstance(y, ast.Name)}
+                if "self" in names and oth_ in names:
+                    return isinstance(t.ops[0], ast.Eq) == pol
+            return None
+
+        wrong = None
+        for req in (True, False):
+            rp_ = paths if req else symx.explore(prog, m, env={"require": False}, inline=symx.inline_private_helpers(prog, public={"is_compatible"}), call_value=forwarded_true)
+            for p in rp_:
+                vs = [v_ for v_ in (verdict_of(t, pol) for t, pol in p.literals()) if v_ is not None]
+                if not vs:
+                    continue
+                accepts = p.outcome == "return" and not (isinstance(p.value, ast.Constant) and p.value.value is False)
+                if accepts and not all(vs):
+                    wrong = wrong or (p, f"accepts (returns {unparse(p.value)[:20] if p.value is not None else None}) although a compared component differs [{p.cond_text()[:70]}]")
+                if not accepts and all(vs) and p.outcome in ("raise", "return"):
+                    wrong = wrong or (p, f"{'raises' if p.outcome == 'raise' else 'answers False'} although every compared component agrees [{p.cond_text()[:70]}]")
+        if wrong is not None:
+            res.violation("C17.R3", m, wrong[0].node or m.node, f"{ci.name}.is_compatible {wrong[1]}: the verdict is inverted for that comparison — operands that do not belong together are combined, matching ones are refused", key_extra=f"is-compatible-polarity-{ci.name}")
+            continue
         bad = [p for p in paths if p.outcome == "return" and isinstance(p.value, ast.Constant) and p.value.value is False]
         if bad:
             res.violation("C17.R3", m, bad[0].node or m.node, f"{ci.name}.is_compatible(require=True) can return False instead of raising: callers that rely on the exception combine incompatible containers", key_extra="require-returns-false")
@@ -975,6 +1005,17 @@ def rule_r9(prog, res) -> None:
             return False
 
         missing = sorted(a_ for a_ in adv if any(f"self.{a_}" not in p.store and not resets_via_call(p, a_) for p in paths))
+        # … to the value the constructor starts from (an iterator reset to 1 skips the first bin / patch on every pass)
+        init_m = prog.find_method(ci, "__init__")
+        if not missing and init_m is not None:
+            for a_ in sorted(adv):
+                inits = [x.value for x in walk_no_nested(init_m.node) if isinstance(x, ast.Assign) and any(isinstance(t, ast.Attribute) and t.attr == a_ and isinstance(t.value, ast.Name) and t.value.id == "self" for t in x.targets)]
+                resets = [p.store.get(f"self.{a_}") for p in paths if p.store.get(f"self.{a_}") is not None]
+                if len(inits) == 1 and isinstance(inits[0], ast.Constant) and resets and any(isinstance(r_, ast.Constant) and r_.value != inits[0].value for r_ in resets):
+                    res.violation("C17.R9", it, it.node, f"{ci.name}.__iter__ resets self.{a_} to {[unparse(r_) for r_ in resets][0]} while the constructor starts from {unparse(inits[0])}: every explicit pass over the indexer starts one item late (the first bin / patch is skipped)", key_extra=f"iter-reset-value-{ci.name}-{a_}")
+                    missing = ["<reported>"]
+        if missing == ["<reported>"]:
+            continue
         if missing:
             res.violation(
                 "C17.R9",
